@@ -520,13 +520,13 @@ theorem send_invS {sn0 : U32} {k : Kcp} {L : List Content} (h : InvS sn0 k L) (b
     rw [if_neg h0] at hp
     split
     · exact h
-    · rename_i h1
-      rw [if_neg h1] at hp
-      have hq1 := sendQ1_len k buffer h.que (by simpa using h1)
+    · rename_i hc
+      rw [if_neg hc] at hp
       split
-      · exact ⟨h.nxt, h.buf, hq1⟩
-      · rename_i h2
-        rw [if_neg h2] at hp
+      · exact h
+      · rename_i h1
+        rw [if_neg h1] at hp
+        have hq1 := sendQ1_len k buffer h.que (by simpa using h1)
         split
         · exact ⟨h.nxt, h.buf, hq1⟩
         · rename_i h3
